@@ -6,6 +6,13 @@ ten-line recursive walker, a path set is a python set of key tuples.
 
 Key scope: non-empty strings whose brackets are properly nested (including
 dots, brackets, digits-only, unicode, '$', whitespace) and ints (incl. negative).
+
+Value scope for lookup / traversal / flatten: trees of plain dicts / lists
+(also subclasses of them, int-keyed dicts, containers with > 10 children),
+pg.Dict / pg.List / pg.Object, equal-but-distinct sub-values, and DAGs: the very
+same container object (plain or symbolic) sitting at several places.  Cycles
+are excluded (a traversal of them cannot terminate).  Path-keyed dicts are
+mappings: canonicalize is checked on permuted and on partially flattened forms.
 """
 import itertools
 import re
@@ -366,6 +373,16 @@ PRE = '''import pyglove as pg
 class A(pg.Object):
   pass
 '''
+# dict / list subclasses are nested values too.
+SUBPRE = '''import collections
+class MyD(dict):
+  pass
+class MyL(list):
+  pass
+'''
+SUBCLASS_EXPRS = ["collections.OrderedDict([('b', 1), ('a', [1, 2])])", "MyD({'x.y': MyL([1, MyD({'k': 2})])})", '[MyL([1, 2]), MyD()]',
+                  "MyL([MyD({'a': 1}), collections.OrderedDict(a=MyL([]))])", "{'a': MyD({'0': 1, '[0]': MyL(['va'])}), 'b': [MyL([[1]])]}",
+                  "MyL([(s := MyD({'k': MyL([1, 2])})), s])"]
 
 
 class _MObj:
@@ -379,8 +396,17 @@ class _ModelPg:
   Dict = staticmethod(dict)
 
 
+def _pre(expr):
+  """Witness prelude for a value expression."""
+  return PRE + (SUBPRE if 'My' in expr or 'collections.' in expr else '')
+
+
+class _ModelCollections:
+  OrderedDict = staticmethod(dict)
+
+
 def _model_eval(expr):
-  return eval(expr, {'pg': _ModelPg, 'A': _MObj})  # pylint: disable=eval-used
+  return eval(expr, {'pg': _ModelPg, 'A': _MObj, 'collections': _ModelCollections, 'MyD': dict, 'MyL': list})  # pylint: disable=eval-used
 
 
 def _mchildren(v, enter_objects=True):
@@ -481,6 +507,13 @@ def _value_exprs(tier, seed, nrand):
             "{'a': [1, {'k': 2}], 'b': {'c': [1, {'k': 2}], 'd': 3}}"):
     out.append((e, 'plain'))
     out.append((f'pg.Dict({e})' if e.startswith('{') else f'pg.List({e})', 'sym'))
+  # containers with more than ten children.
+  ll = '[' + ', '.join(str(i) if i % 3 else "'va'" for i in range(12)) + ']'
+  dd = '{' + ', '.join(f'{str(i)!r}: {i}' for i in (10, 9, 1, 0, 2, 11, 3, 8, 4, 7, 5, 6)) + '}'
+  out += [(ll, 'plain'), (f'pg.List({ll})', 'sym'), (dd, 'plain'), (f'pg.Dict({dd})', 'sym'), (f"{{'a': {ll}, 'b': [{dd}]}}", 'plain'), (f'A({ll}, {dd})', 'obj')]
+  for e in SUBCLASS_EXPRS:
+    out.append((e, 'plain-subclass'))
+    out.append((f'pg.Dict(r={e})', 'sym'))
   out.extend(_shared_exprs(r, nrand // 3))
   return list(dict.fromkeys(out))
 
@@ -602,17 +635,18 @@ _SENTINEL = object()
 # ---------------------------------------------------------------------------
 
 PROBES = ['a', 'zz', '0', 'x.y', '$', 0, 1, 2, 7, -1, -2, -3, -9]
+PROBES_FEW = ['zz', '0', 1, 7, -1, -9]
 
 
 def drv_query(tier, seed):
   vals = _value_exprs(tier, seed, 100 if tier == 'quick' else 2000)
   rec = Recorder('C10', 'KeyPath.query/get/exists on every node and on absent keys',
-                 scope=f'{len(vals)} nested values (plain / symbolic / objects; dict keys from {len(DKEYS)} tricky strings and ints); '
+                 scope=f'{len(vals)} nested values (plain / symbolic / objects / dict+list subclasses / shared sub-objects; dict keys from {len(DKEYS)} tricky strings and ints); '
                        f'every node path + {len(PROBES)} probe keys below every node')
   chk = _Chk(rec)
   ns = {'__name__': 'c10ns'}
-  exec(PRE, ns)  # pylint: disable=exec-used
-  def one(expr):
+  exec(PRE + SUBPRE, ns)  # pylint: disable=exec-used
+  def one(expr, flavour):
     root = eval(expr, dict(ns))  # pylint: disable=eval-used
     model = _model_eval(expr)
     for path, mnode, _ in _mwalk(model):
@@ -620,7 +654,7 @@ def drv_query(tier, seed):
       lp = list(path)
       p = KP(lp)
       cls = _seqclass(path)
-      w0 = PRE + f'root = {expr}\np = pg.KeyPath({lp!r})\n'
+      w0 = _pre(expr) + f'root = {expr}\np = pg.KeyPath({lp!r})\n'
       g = _out(p.query, root)
       chk(f'query.node/{cls}', (expr, path), g[0] == 'ok' and g[1] is node and _same_node(node, mnode), lambda: f'query -> {g}',
           lambda: w0 + 'p.query(root)')
@@ -633,7 +667,7 @@ def drv_query(tier, seed):
       # probes below this node.
       kind = _node_kind(node)
       ch = _mchildren(mnode)
-      for k in PROBES:
+      for k in (PROBES if not flavour.startswith('shared') else PROBES_FEW):
         present = None
         if ch is not None and isinstance(mnode, dict):
           present = any(_tk([k]) == _tk([c]) for c, _ in ch)
@@ -648,7 +682,7 @@ def drv_query(tier, seed):
         if present and not (isinstance(mnode, list) and k < 0):
           continue   # a real child: covered by the node checks.
         q = KP(lp + [k])
-        w = PRE + f'root = {expr}\np = pg.KeyPath({lp + [k]!r})\n'
+        w = _pre(expr) + f'root = {expr}\np = pg.KeyPath({lp + [k]!r})\n'
         kc = 'int<0' if isinstance(k, int) and k < 0 else type(k).__name__
         if present:    # in-range negative index addresses an element, python style.
           g = _out(q.query, root)
@@ -662,11 +696,11 @@ def drv_query(tier, seed):
             lambda: f'exists -> {g1}; get(default) -> {g2 if g2[0] == "exc" else ("default" if g2[1] is _SENTINEL else g2[1])}; query -> {g3 if g3[0] == "exc" else ("ok", g3[1])} (want False / default / KeyError)',
             lambda: w + 'assert p.exists(root) is False\nassert p.get(root, "dflt") == "dflt"\ntry:\n  p.query(root)\n  raise AssertionError("no KeyError")\nexcept KeyError:\n  pass')
 
-  for expr, _ in vals:
+  for expr, flavour in vals:
     try:
-      one(expr)
+      one(expr, flavour)
     except Exception as e:  # pylint: disable=broad-except
-      rec.case('unexpected-exception', expr, False, f'{type(e).__name__}: {e}', PRE + f'root = {expr}\nraise AssertionError({str(e)!r})')
+      rec.case('unexpected-exception', expr, False, f'{type(e).__name__}: {e}', _pre(expr) + f'root = {expr}\nraise AssertionError({str(e)!r})')
 
   # plain dicts keyed by ints (a dict is addressed by its keys, whatever their type).
   for expr, path in [("{5: 'x'}", (5,)), ("{0: 'x', 1: 'y'}", (1,)), ("{'a': {2: 'x'}}", ('a', 2)), ("{-1: 'x'}", (-1,)), ("{1: 'x'}", (1,))]:
@@ -688,10 +722,11 @@ def drv_query(tier, seed):
 def drv_traverse(tier, seed):
   vals = _value_exprs(tier, seed, 500 if tier == 'quick' else 8000)
   rec = Recorder('C10', 'pg.traverse, utils.traverse, pg.query, rebind(fn): every node once, with its path',
-                 scope=f'{len(vals)} nested values; every node as STOP / CONTINUE point for values with <= 12 nodes')
+                 scope=f'{len(vals)} nested values (trees and DAGs with the same container at several places); every node as STOP / CONTINUE point, '
+                       'as path_regex and as where-parent of pg.query for values with <= 12 nodes; pg.contains, nested traversal, utils.transform(identity)')
   chk = _Chk(rec)
   ns = {'__name__': 'c10ns'}
-  exec(PRE, ns)  # pylint: disable=exec-used
+  exec(PRE + SUBPRE, ns)  # pylint: disable=exec-used
   ENTER, STOP, CONT = pg.TraverseAction.ENTER, pg.TraverseAction.STOP, pg.TraverseAction.CONTINUE
   wtrav = ('log = []\nret = pg.traverse(root, lambda k, v, p: (log.append(k.keys), pg.TraverseAction.ENTER)[1])\n')
   def one(expr, flavour):
@@ -699,7 +734,7 @@ def drv_traverse(tier, seed):
     model = _model_eval(expr)
     mpre = list(_mwalk(model))
     mpost = list(_mpost(model))
-    w0 = PRE + f'root = {expr}\n'
+    w0 = _pre(expr) + f'root = {expr}\n'
     # --- pg.traverse: full walk.
     pre, post = [], []
 
@@ -722,14 +757,23 @@ def drv_traverse(tier, seed):
         lambda: f'visited {[k.keys for k, _, _ in post]!r}, want {[list(p) for p, _ in mpost]!r}',
         lambda: w0 + 'log = []\npg.traverse(root, None, lambda k, v, p: (log.append(k.keys), pg.TraverseAction.ENTER)[1])\n' + f'assert log == {[list(p) for p, _ in mpost]!r}')
     ok_nodes = ok_parent = ok_query = ok_sympath = True
-    for (k, v, par), (mp, mv, _) in zip(pre, mpre):
-      want = _lookup(root, mp)
-      ok_nodes = ok_nodes and v is want and _same_node(v, mv)
-      ok_parent = ok_parent and (par is (None if not mp else _lookup(root, mp[:-1])))
+    places = {}     # id(symbolic node) -> the paths at which that very object sits.
+    # (each visit is judged by the path it reports, whatever the other visits are.)
+    mnode_at = {_tk(mp): mv for mp, mv, _ in mpre}
+    for k, v, par in pre:
+      if isinstance(v, pg.Symbolic):
+        places.setdefault(id(v), set()).add(_tk(k.keys))
+    for k, v, par in pre:
+      mp = tuple(k.keys)
+      want = _out(_lookup, root, mp)
+      ok_nodes = ok_nodes and want[0] == 'ok' and v is want[1] and _tk(mp) in mnode_at and _same_node(v, mnode_at[_tk(mp)])
+      wpar = _out(_lookup, root, mp[:-1])
+      ok_parent = ok_parent and (par is None if not mp else (wpar[0] == 'ok' and par is wpar[1]))
       q1, q2 = _out(k.query, root), _out(lambda: KP.parse(str(k)).query(root))
       ok_query = ok_query and q1[0] == 'ok' and q1[1] is v and q2[0] == 'ok' and q2[1] is v
       if isinstance(v, pg.Symbolic) and isinstance(root, pg.Symbolic):
-        ok_sympath = ok_sympath and _tk(v.sym_path.keys) == _tk(mp)
+        # (an object that sits at several places cannot name them all: any one of them.)
+        ok_sympath = ok_sympath and _tk(v.sym_path.keys) in places[id(v)]
     chk(f'pg.traverse.reports-the-node/{flavour}', key, ok_nodes, 'a visited value is not the node at its path',
         lambda: w0 + 'pg.traverse(root, lambda k, v, p: (None if k.query(root) is v else 1 / 0, pg.TraverseAction.ENTER)[1])')
     chk(f'pg.traverse.reports-the-parent/{flavour}', key, ok_parent, 'parent argument is not the parent node',
@@ -737,7 +781,10 @@ def drv_traverse(tier, seed):
     chk(f'pg.traverse.path-looks-up-node/{flavour}', key, ok_query, 'path.query(root) is not the visited node',
         lambda: w0 + 'pg.traverse(root, lambda k, v, p: (None if pg.KeyPath.parse(str(k)).query(root) is v else 1 / 0, pg.TraverseAction.ENTER)[1])')
     chk(f'pg.traverse.sym_path-agrees/{flavour}', key, ok_sympath, 'sym_path of a visited symbolic node differs from the reported path',
-        lambda: w0 + 'pg.traverse(root, lambda k, v, p: (None if not isinstance(v, pg.Symbolic) or v.sym_path == k else 1 / 0, pg.TraverseAction.ENTER)[1])')
+        lambda: w0 + ('pg.traverse(root, lambda k, v, p: (None if not isinstance(v, pg.Symbolic) or v.sym_path == k else 1 / 0, pg.TraverseAction.ENTER)[1])'
+                      if not flavour.startswith('shared') else
+                      'at = {}\npg.traverse(root, lambda k, v, p: (at.setdefault(id(v), []).append(k), pg.TraverseAction.ENTER)[1])\n'
+                      'pg.traverse(root, lambda k, v, p: (None if not isinstance(v, pg.Symbolic) or v.sym_path in at[id(v)] else 1 / 0, pg.TraverseAction.ENTER)[1])'))
     # root_path / parent arguments.
     pre2 = []
     g = _out(pg.traverse, root, lambda k, v, p: (pre2.append((k, p)), None)[1], None, KP(['r', 3]), 'PARENT')   # None counts as ENTER
@@ -783,6 +830,22 @@ def drv_traverse(tier, seed):
     g = _out(pg.query, root, None, lambda v: True, False)
     chk(f'pg.query.select-root-only/{flavour}', key, g[0] == 'ok' and list(g[1].keys()) == [''] and g[1][''] is root, lambda: f'{g}',
         lambda: w0 + 'res = pg.query(root, where=lambda v: True)\nassert list(res) == [""]')
+    # a regex that spells one printed path selects exactly that node; a where
+    # clause on the parent selects exactly the children of that node.
+    if len(mpre) <= 12:
+      for mp, mv, _ in mpre:
+        sp = str(KP(list(mp)))
+        rx = r'\A' + re.escape(sp) + r'\Z'
+        node = _lookup(root, mp)
+        g = _out(pg.query, root, rx)
+        chk(f'pg.query.path_regex-of-one-path/{flavour}', (expr, mp), g[0] == 'ok' and list(g[1].keys()) == [sp] and g[1][sp] is node,
+            lambda: f'pg.query(root, {rx!r}) -> {g}', lambda: w0 + f'res = pg.query(root, {rx!r})\nassert list(res) == [{sp!r}] and res[{sp!r}] is pg.KeyPath({list(mp)!r}).query(root)')
+        if _mchildren(mv):
+          wantc = [str(KP(list(q))) for q, _, _ in mpre if q and _lookup(root, q[:-1]) is node]
+          g = _out(pg.query, root, None, lambda v, p: p is node, True)
+          chk(f'pg.query.where-parent-is-node/{flavour}', (expr, mp), g[0] == 'ok' and list(g[1].keys()) == wantc,
+              lambda: f'{list(g[1]) if g[0] == "ok" else g}, want {wantc}',
+              lambda: w0 + f'node = pg.KeyPath({list(mp)!r}).query(root)\nres = pg.query(root, where=lambda v, p: p is node, enter_selected=True)\nassert list(res) == {wantc!r}')
     # leaves only, through custom selectors with 2 and 3 arguments.
     mleaves = [(p, v) for p, v, _ in mpre if not _mchildren(v)]
     for nm, sel in (('custom2', lambda k, v: not isinstance(v, (dict, list, pg.Object)) or len(v) == 0 if not isinstance(v, pg.Object) else False),
@@ -791,6 +854,28 @@ def drv_traverse(tier, seed):
       chk(f'pg.query.leaves-{nm}/{flavour}', key, g[0] == 'ok' and list(g[1].keys()) == [str(KP(list(p))) for p, _ in mleaves],
           lambda: f'{list(g[1]) if g[0] == "ok" else g}, want {[str(KP(list(p))) for p, _ in mleaves]}',
           lambda: w0 + f'res = pg.query(root, custom_selector=lambda k, v: not isinstance(v, (dict, list, pg.Object)) or (not isinstance(v, pg.Object) and len(v) == 0))\nassert list(res) == {[str(KP(list(p))) for p, _ in mleaves]!r}')
+    # --- pg.contains: every leaf value is found, an absent value is not.
+    lv = list(dict.fromkeys(v for _, v in mleaves if type(v) in (int, str)))
+    g = [_out(pg.contains, root, x) for x in lv] + [_out(pg.contains, root, 'no such leaf'), _out(pg.contains, root, -12345)]
+    chk(f'pg.contains.finds-exactly-the-present-leaves/{flavour}', key, g == [('ok', True)] * len(lv) + [('ok', False)] * 2, lambda: f'{lv} + 2 absent -> {g}',
+        lambda: w0 + f'assert all(pg.contains(root, x) for x in {lv!r}) and not pg.contains(root, "no such leaf")')
+    # --- a traversal started from inside a visitor does not disturb the outer one
+    # (and is not disturbed by it).
+    if 2 < len(mpre) <= 40:
+      outer, inner = [], []
+
+      def f_outer(k, v, p):
+        outer.append(_tk(k.keys))
+        got = []
+        pg.traverse(v, lambda k2, v2, p2: (got.append(_tk(k2.keys)), ENTER)[1], None, k, p)
+        inner.append(got)
+        return ENTER
+      g = _out(pg.traverse, root, f_outer)
+      wanti = [[_tk(p) for p, _, _ in mpre if _tk(p[:len(mp)]) == _tk(mp)] for mp, _, _ in mpre]
+      chk(f'pg.traverse.nested-call-from-visitor/{flavour}', key, g == ('ok', True) and outer == [_tk(p) for p, _, _ in mpre] and inner == wanti,
+          lambda: f'ret {g}; outer visited {outer}; inner {inner}',
+          lambda: w0 + 'outer, inner = [], []\ndef f(k, v, p):\n  outer.append(k.keys)\n  pg.traverse(v, lambda k2, v2, p2: (inner.append(k2.keys), pg.TraverseAction.ENTER)[1], None, k, p)\n  return pg.TraverseAction.ENTER\n'
+          + f'pg.traverse(root, f)\nassert outer == {[list(p) for p, _, _ in mpre]!r}\nassert len(inner) == {sum(len(x) for x in wanti)}')
     # --- utils.traverse (objects are leaves there).
     upre = list(_mwalk(model, enter_objects=False))
     upost = list(_mpost(model, enter_objects=False))
@@ -798,7 +883,7 @@ def drv_traverse(tier, seed):
     g = _out(pg.utils.traverse, root, lambda k, v: (a.append((k, v)), True)[1], lambda k, v: (b.append((k, v)), True)[1])
     oku = (g == ('ok', True) and [_tk(k.keys) for k, _ in a] == [_tk(p) for p, _, _ in upre]
            and [_tk(k.keys) for k, _ in b] == [_tk(p) for p, _ in upost])
-    if oku and flavour == 'plain':
+    if oku and flavour in ('plain', 'plain-int-keys', 'plain-subclass', 'shared-plain'):
       oku = all(v is _lookup(root, p) for (k, v), (p, _, _) in zip(a, upre))
     chk(f'utils.traverse.visits/{flavour}', key, oku, lambda: f'{g}; pre {[k.keys for k, _ in a]}, want {[list(p) for p, _, _ in upre]}',
         lambda: w0 + 'log = []\nassert pg.utils.traverse(root, lambda k, v: (log.append(k.keys), True)[1])\n' + f'assert log == {[list(p) for p, _, _ in upre]!r}')
@@ -813,6 +898,12 @@ def drv_traverse(tier, seed):
         g = _out(pg.utils.traverse, root, None, lambda k, v: (seen.append(_tk(k.keys)), _tk(k.keys) != _tk(mp))[1])
         chk(f'utils.traverse.stop-in-postorder/{flavour}', (expr, mp), g == ('ok', False) and seen == [_tk(p) for p, _ in upost[:idx + 1]],
             lambda: f'{g} {seen}', lambda: w0 + f'log = []\nret = pg.utils.traverse(root, None, lambda k, v: (log.append(k.keys), k.keys != {list(mp)!r})[1])\nassert ret is False and len(log) == {idx + 1}')
+    # --- utils.transform with the identity function: every node once, bottom-up, with its path.
+    if flavour in ('plain', 'plain-int-keys', 'plain-subclass', 'shared-plain'):
+      tl = []
+      g = _out(pg.utils.transform, root, lambda k, v: (tl.append(_tk(k.keys)), v)[1], None, False)
+      chk(f'utils.transform.identity-visits/{flavour}', key, g[0] == 'ok' and tl == [_tk(p) for p, _ in upost] and _deep_same(g[1], model),
+          lambda: f'{g}; visited {tl}', lambda: w0 + f'log = []\nres = pg.utils.transform(root, lambda k, v: (log.append(k.keys), v)[1], inplace=False)\nassert log == {[list(p) for p, _ in upost]!r} and res == root')
     # --- rebind by function addresses every leaf through its printed path.
     if isinstance(root, pg.Symbolic):
       ints = [p for p, v, _ in mpre if type(v) is int]
@@ -835,7 +926,7 @@ def drv_traverse(tier, seed):
     try:
       one(expr, flavour)
     except Exception as e:  # pylint: disable=broad-except
-      rec.case(f'unexpected-exception/{flavour}', expr, False, f'{type(e).__name__}: {e}', PRE + f'root = {expr}\nraise AssertionError({str(e)!r})')
+      rec.case(f'unexpected-exception/{flavour}', expr, False, f'{type(e).__name__}: {e}', _pre(expr) + f'root = {expr}\nraise AssertionError({str(e)!r})')
 
   return rec.result()
 
@@ -917,6 +1008,11 @@ def _flat_values(tier, seed):
     e = rand_ik(r.randrange(2, 5))
     if e[0] in '[{' and len(e) > 2:
       out.append(e)
+  out.extend(SUBCLASS_EXPRS)
+  # lists with indices of more than one digit.
+  for n in (10, 11, 12, 21):
+    ll = '[' + ', '.join(FLEAVES[i % 3] if i % 4 else str(i) for i in range(n)) + ']'
+    out += [ll, f"{{'a': {ll}}}", f"{{'x.y': [{ll}, 1], 'b': {{'c': {ll}}}}}", f'[{ll}, {ll}]']
   # the same container object at several places: every place has its own paths.
   for sh in SHARED_PLAIN:
     for ctx in SHARED_CTX:
@@ -995,23 +1091,31 @@ def _partial_form(v, r, shuffled):
 def drv_flatten(tier, seed):
   vals = _flat_values(tier, seed)
   rec = Recorder('C10', 'utils.flatten / utils.canonicalize are inverse; flatten keys are the leaf paths',
-                 scope=f'{len(vals)} nested dict/list values: exhaustive depth<=1 over {len(FKEYS)} keys x {len(FLEAVES)} leaves, chains to depth 3, seeded random depth<=5')
+                 scope=f'{len(vals)} nested dict/list values: exhaustive depth<=1 over {len(FKEYS)} keys x {len(FLEAVES)} leaves, chains to depth 3, seeded random depth<=5; '
+                       'int-keyed dicts, lists up to 21 elements, shared sub-containers, dict/list subclasses; flat forms permuted (all orders for <= 3 entries, '
+                       'else reversed / interleaved / seeded shuffles) and partially flattened by seeded coins')
   chk = _Chk(rec)
   rp = rng(seed, 'c10-flat-perm')
   counter = [0]
 
+  fns = {}
+  exec(SUBPRE, fns)  # pylint: disable=exec-used
+
   def one(expr):
-    v = eval(expr, {}, {})  # pylint: disable=eval-used
+    v = eval(expr, dict(fns))  # pylint: disable=eval-used
     cls = 'root-list' if isinstance(v, list) else 'root-dict'
     cx = _has_complex_key(v)
     cls += '/complex-keys' if cx else '/simple-keys'
+    sub = 'My' in expr or 'collections.' in expr
+    if sub:
+      cls += '/container-subclasses'
     ik = _has_int_dict_key(v)
     if ik:
       cls += '/int-dict-keys'
     if ':=' in expr:
       cls += '/shared-containers'
     counter[0] += 1
-    w0 = f'import pyglove as pg\nv = {expr}\n'
+    w0 = 'import pyglove as pg\n' + (SUBPRE if sub else '') + f'v = {expr}\n'
     leaves = [(p, n) for p, n, _ in _mwalk(v) if p and not _mchildren(n)]
     g = _out(pg.utils.flatten, v, False)
     want = {str(KP(list(p))): n for p, n in leaves}
@@ -1035,8 +1139,8 @@ def drv_flatten(tier, seed):
         if n <= 3:
           perms = [list(q) for q in itertools.permutations(items)][1:]
         else:
-          perms = [items[::-1], items[1:] + items[:1], items[n // 2:] + items[:n // 2], items[1::2] + items[0::2]]
-          for _ in range(2):
+          perms = [items[::-1]] + ([items[1::2] + items[0::2]] if n <= 12 or tier != 'quick' else [])
+          for _ in range(1 if tier == 'quick' else 4):
             q = list(items)
             rp.shuffle(q)
             perms.append(q)
@@ -1046,7 +1150,7 @@ def drv_flatten(tier, seed):
           chk(f'canonicalize.entry-order-immaterial/{pcls}', (expr, pi), c[0] == 'ok' and _deep_same(c[1], v),
               lambda: f'canonicalize({d!r}) -> {c}, want {v!r}',
               lambda: w0 + f'flat = {d!r}\nassert pg.utils.canonicalize(flat) == v')
-          if not ik and pi < 2:
+          if not ik and pi < 1:
             c = _out(pg.utils.canonicalize, d, False)
             chk(f'canonicalize.entry-order-immaterial.sparse_list_as_dict=False/{pcls}', (expr, pi), c[0] == 'ok' and _deep_same(c[1], v),
                 lambda: f'canonicalize({d!r}, False) -> {c}, want {v!r}',
@@ -1081,14 +1185,14 @@ def drv_flatten(tier, seed):
       chk(f'canonicalize.identity-on-canonical/{cls}', expr, c[0] == 'ok' and _deep_same(c[1], v), lambda: f'{c}',
           lambda: w0 + 'import copy; assert pg.utils.canonicalize(copy.deepcopy(v)) == v')
     # flatten does not modify its argument.
-    chk(f'flatten.argument-unchanged/{cls}', expr, _deep_same(v, eval(expr, {}, {})), 'flatten/canonicalize modified the input',  # pylint: disable=eval-used
+    chk(f'flatten.argument-unchanged/{cls}', expr, _deep_same(v, eval(expr, dict(fns))), 'flatten/canonicalize modified the input',  # pylint: disable=eval-used
         lambda: w0 + f'pg.utils.flatten(v, False); assert v == {expr}')
 
   for expr in vals:
     try:
       one(expr)
     except Exception as e:  # pylint: disable=broad-except
-      rec.case('unexpected-exception', expr, False, f'{type(e).__name__}: {e}', f'import pyglove as pg\nv = {expr}\nassert pg.utils.canonicalize(pg.utils.flatten(v, False)) == v')
+      rec.case('unexpected-exception', expr, False, f'{type(e).__name__}: {e}', 'import pyglove as pg\n' + (SUBPRE if 'My' in expr or 'collections.' in expr else '') + f'v = {expr}\nassert pg.utils.canonicalize(pg.utils.flatten(v, False)) == v')
 
   return rec.result()
 
